@@ -12,7 +12,7 @@ from typing import Dict, List, Optional, Tuple
 
 from ..spec import layout as L
 
-QUICK_WIDTHS = [1, 2, 7, 8, 9, 15, 16, 17, 24, 31, 32, 33, 48, 63, 64]
+QUICK_WIDTHS = [1, 2, 4, 7, 8, 9, 15, 16, 17, 24, 31, 32, 33, 48, 63, 64]
 QUICK_ENUM_WIDTHS = [1, 3, 8, 11, 16, 32]
 
 
